@@ -21,7 +21,10 @@ R1 argument words are escaped exactly when CWL says so, and with the right funct
    facts are taken where the token is built.
 R2 environment, working directory and stream redirections reach the process through the shared renderer:
    a. `execute` passes `environment=<dict built from every self.environment item>`, `workdir=job.output_directory`
-      and `stdin/stdout/stderr` evaluated from the homonymous CWL fields to `connector.run`; HOME / TMPDIR
+      and `stdin/stdout/stderr` evaluated from the homonymous CWL fields to `connector.run` (def-use closure that
+      follows a resolved call into an extracted helper -- method on `self`, function receiving `self`, local or
+      private function, two levels deep -- taking the callee's returned expressions, the element selected by a
+      tuple unpacking / constant subscript, and the call's own arguments for the callee's parameters); HOME / TMPDIR
       are defaulted only when EnvVarRequirement did not set them, to outdir / tmpdir (stores at which the branch
       fact `'K' in env` is false on every path -- sfverif.facts, so `not in` / `not (.. in ..)` / else-branch /
       guard-clause spellings are the same --, `env.setdefault('K', v)`, or a dict
@@ -608,21 +611,172 @@ def _r1_translator(ctx):
 # --------------------------------------------------------------------------- R2
 
 
-def _attr_origins(f, expr, attrs) -> set[str]:
-    """`self.<a>` attributes (a in attrs) read by expr, following plain local assignments."""
-    out = set()
-    todo = [expr]
-    seen = set()
-    while todo:
-        e = todo.pop()
-        for n in [e, *walk_no_nested(e)]:
-            if isinstance(n, ast.Attribute) and isinstance(n.value, ast.Name) and n.value.id == "self" and n.attr in attrs:
-                out.add(n.attr)
-            elif isinstance(n, ast.Name) and isinstance(n.ctx, ast.Load) and n.id not in seen:
-                seen.add(n.id)
-                for d in defs_of(f, n.id):
-                    if d.kind in ("assign", "walrus") and d.value is not None:
-                        todo.append(d.value)
+_FLOW_DEPTH = 2  # inlining bound of _attr_origins (execute -> helper -> helper of the helper)
+
+
+class _Frame:
+    """One activation followed by _attr_origins: the function, the names that denote the command object in it, the
+    argument expressions bound to its parameters (evaluated in `caller`), and the frame of the lexically enclosing
+    function (free variables of a local function)."""
+
+    def __init__(self, f, selfnames, binds=None, caller=None, lexical=None):
+        self.f = f
+        self.selfnames = set(selfnames)
+        self.binds = binds or {}
+        self.caller = caller
+        self.lexical = lexical
+        self.depth = 0 if caller is None else caller.depth + 1
+
+    def chain(self):
+        fr = self
+        while fr is not None:
+            yield fr
+            fr = fr.caller
+
+
+def _unpack_index(d):
+    """Position of the value a tuple-unpacking definition takes (None: whole value / position unknown)."""
+    if d.index is None:
+        return None
+    st = d.stmt
+    tgts = st.targets if isinstance(st, ast.Assign) else [getattr(st, "target", None)]
+    for t in tgts:
+        if t is not None and any(isinstance(x, ast.Starred) for x in ast.walk(t)):
+            return None
+    return d.index
+
+
+def _attr_origins(p, f, expr, attrs) -> set[str]:
+    """`self.<a>` attributes (a in attrs) that `expr` is derived from.
+
+    Def-use closure over plain local assignments (flow-insensitive); a tuple-unpacking definition / constant subscript
+    selects the element of a tuple (dict) display when the value can be followed to one.  A call is followed into the
+    callee (resolved call, at most _FLOW_DEPTH levels, no recursion) when the callee shares the command object or is a
+    private / local helper: a method called on `self` / `super()`, a function that receives `self`, a function defined
+    inside the current one, a `_private` function.  The callee's returned expressions are evaluated in its own frame:
+    its parameters stand for the argument expressions of *this* call, `self.<a>` counts only on names bound to the
+    command object.  The result of any other call is derived from its receiver and arguments."""
+    out: set[str] = set()
+    seen: set = set()
+    frames: list[_Frame] = []  # keeps the frames alive (their id() keys `seen`)
+
+    def scope_of(fr, nm):
+        """Frame in which `nm` is a local (None: global / builtin / unknown)."""
+        while fr is not None:
+            if nm in fr.f.params or defs_of(fr.f, nm):
+                return fr
+            fr = fr.lexical
+        return None
+
+    def is_self(fr, nm):
+        sc = scope_of(fr, nm)
+        return sc is not None and nm in sc.selfnames
+
+    def follow(fr, call):
+        if fr.depth >= _FLOW_DEPTH:
+            return None
+        if any(isinstance(a, ast.Starred) for a in call.args) or any(k.arg is None for k in call.keywords):
+            return None
+        qs = p.resolve_call(fr.f, call, fanout=False)
+        if len(qs) != 1:
+            return None
+        h = p.functions.get(qs[0])
+        if h is None or isinstance(h.node, ast.Lambda) or any(x.f is h for x in fr.chain()):
+            return None
+        binds = _call_bindings(h, call)
+        selfn = set()
+        for k, a in binds.items():
+            if isinstance(a, ast.Name) and is_self(fr, a.id):
+                selfn.add(k)
+            elif isinstance(a, ast.Call) and isinstance(a.func, ast.Name) and a.func.id == "super" and not a.args and is_self(fr, "self"):
+                selfn.add(k)
+        lexical = None
+        outer = getattr(h, "outer", None)
+        if outer is not None:
+            x = fr
+            while x is not None and lexical is None:
+                y = x
+                while y is not None and lexical is None:
+                    if y.f is outer:
+                        lexical = y
+                    y = y.lexical
+                x = x.caller
+        private = h.name.startswith("_") and not h.name.startswith("__")
+        if not (selfn or lexical is not None or private):
+            return None
+        params = list(h.params)
+        if h.cls is not None and isinstance(call.func, ast.Attribute) and params and params[0] in ("self", "cls") and params[0] in binds and params[0] not in selfn:
+            return None  # method of another object (or `Cls.m(self, ..)`: the positional binding is not the bound one)
+        nf = _Frame(h, selfn, binds, caller=fr, lexical=lexical)
+        frames.append(nf)
+        return nf
+
+    def name(fr, nm, idx):
+        sc = scope_of(fr, nm)
+        if sc is None:
+            return
+        key = (id(sc), nm, idx)
+        if key in seen:
+            return
+        seen.add(key)
+        for d in defs_of(sc.f, nm):
+            if d.kind == "param":
+                b = sc.binds.get(nm)
+                if b is not None and sc.caller is not None:
+                    visit(sc.caller, b, idx)
+            elif d.kind in ("assign", "walrus") and d.value is not None:
+                at = _unpack_index(d)
+                visit(sc, d.value, idx if at is None else at)
+
+    def visit(fr, e, idx=None):
+        while isinstance(e, ast.Await):
+            e = e.value
+        if idx is not None:
+            if isinstance(e, (ast.Tuple, ast.List)) and isinstance(idx, int) and idx < len(e.elts) and not any(isinstance(x, ast.Starred) for x in e.elts):
+                return visit(fr, e.elts[idx])
+            if isinstance(e, ast.Dict) and any(isinstance(k, ast.Constant) and k.value == idx for k in e.keys) and all(k is not None for k in e.keys):
+                for k, v in zip(e.keys, e.values):
+                    if isinstance(k, ast.Constant) and k.value == idx:
+                        visit(fr, v)
+                return None
+            if isinstance(e, ast.IfExp):
+                visit(fr, e.test)
+                visit(fr, e.body, idx)
+                visit(fr, e.orelse, idx)
+                return None
+            if isinstance(e, ast.NamedExpr):
+                return visit(fr, e.value, idx)
+            if not isinstance(e, (ast.Name, ast.Call)):
+                idx = None  # element not identifiable: the whole value
+        if isinstance(e, ast.Call):
+            cf = follow(fr, e)
+            if cf is not None:
+                for r in cf.f.body_nodes():
+                    if isinstance(r, ast.Return) and r.value is not None:
+                        visit(cf, r.value, idx)
+                return None
+            idx = None  # opaque call: derived from its receiver and arguments
+        if isinstance(e, ast.Subscript) and isinstance(e.ctx, ast.Load) and isinstance(e.slice, ast.Constant) and (
+            (isinstance(e.slice.value, int) and not isinstance(e.slice.value, bool) and e.slice.value >= 0) or isinstance(e.slice.value, str)
+        ):
+            return visit(fr, e.value, e.slice.value)
+        if isinstance(e, ast.Attribute) and isinstance(e.value, ast.Name) and is_self(fr, e.value.id):
+            if e.attr in attrs:
+                out.add(e.attr)
+            return None
+        if isinstance(e, ast.Name):
+            if isinstance(e.ctx, ast.Load):
+                name(fr, e.id, idx)
+            return None
+        if isinstance(e, (ast.FunctionDef, ast.AsyncFunctionDef, ast.ClassDef)):
+            return None
+        for c in ast.iter_child_nodes(e):
+            visit(fr, c)
+        return None
+
+    top = _Frame(f, {"self"} if "self" in f.params else set())
+    frames.append(top)
+    visit(top, expr)
     return out
 
 
@@ -738,7 +892,7 @@ def r2(ctx):
     allowed = {"stdin": {"stdin"}, "stdout": {"stdout"}, "stderr": {"stderr", "stdout"}}
     for s in ("stdin", "stdout", "stderr"):
         v = kws.get(s)
-        got = _attr_origins(f, v, {"stdin", "stdout", "stderr"}) if v is not None else set()
+        got = _attr_origins(p, f, v, {"stdin", "stdout", "stderr"}) if v is not None else set()
         ok = v is not None and s in got and got <= allowed[s]
         ctx.ob("R2", f"{s} of the process comes from the tool's `{s}` field", ok, func=f, node=call, instance=f"execute:stream:{s}",
                message=f"connector.run gets {s}=`{unparse(v) if v is not None else None}`, derived from {sorted('self.' + x for x in got)} instead of self.{s}")
@@ -1647,6 +1801,27 @@ _ENV_COMP = ("{k: str(utils.eval_expression(expression=v, context=context, full_
 _ENV_DEFAULTS = ("    if 'HOME' not in parsed_env:\n        parsed_env['HOME'] = job.output_directory\n"
                  "    if 'TMPDIR' not in parsed_env:\n        parsed_env['TMPDIR'] = job.tmp_directory")
 _KEY = "key=lambda t: [t.position, t.name] if t.name is not None else [t.position]"
+
+
+def _ev(recv: str, attr: str) -> str:
+    return f"utils.eval_expression(expression={recv}.{attr}, context=context, full_js={recv}.full_js, expression_lib={recv}.expression_lib)"
+
+
+def _stream_stmts(recv: str, indent: str) -> str:
+    """The three stream evaluations of CWLCommand.execute (normalised text), reading the fields of `recv`."""
+    return (f"stdin = {_ev(recv, 'stdin')}\n{indent}stdout = {_ev(recv, 'stdout')} if {recv}.stdout is not None else STDOUT\n"
+            f"{indent}stderr = {_ev(recv, 'stderr')} if {recv}.stderr is not None else stdout")
+
+
+_STREAMS = _stream_stmts("self", "    ")
+# extract-function shapes of the stream evaluation (benign refactoring B23-1 extracts a method; a method cannot be added
+# by one substring replacement, so the variants use a module-level helper receiving the command and a local function)
+_STREAMS_HELPER = "def _cwl_streams(cmd, context):\n    " + _stream_stmts("cmd", "    ") + "\n    return stdin, stdout, stderr\n"
+_STREAMS_LOCAL = "def _streams():\n        " + _stream_stmts("self", "        ") + "\n        return (stdin, stdout, stderr)\n    stdin, stdout, stderr = _streams()"
+_EVAL_HELPER = ("def _eval_stream(cmd, expression, context):\n"
+                "    return utils.eval_expression(expression=expression, context=context, full_js=cmd.full_js, expression_lib=cmd.expression_lib)\n")
+_STREAMS_EVAL = ("stdin = _eval_stream(self, self.stdin, context)\n    stdout = _eval_stream(self, self.stdout, context) if self.stdout is not None else STDOUT\n"
+                 "    stderr = _eval_stream(self, self.stderr, context) if self.stderr is not None else stdout")
 _MERGE_SORT = ("tokens: list[CommandToken] = sorted(filter(lambda t: t.position is not None, flatten_list([_merge_tokens(t) for t in token.value.values() if t is not None])), "
                + _KEY + ")")
 _GLUE = "value = [self.prefix + _get_value_repr(value)]"
@@ -1925,4 +2100,21 @@ VARIANTS = [
       "[f'export {name}={shlex.quote(str(val))} && ' for name, val in environment.items()]", None),
     V("benign: create_command quotes the value into a local first", UFILE, CREATE, "return ''.join('{workdir}",
       "qdir = shlex.quote(workdir) if workdir is not None else ''\n    return ''.join('{workdir}", None),
+    # streams evaluated in an extracted helper (B23-1: `stdin, stdout, stderr = self._get_streams(context)`)
+    V("benign: streams evaluated in a module-level helper receiving the command", FILE, f"{CMD}.execute", _STREAMS, "stdin, stdout, stderr = _cwl_streams(self, context)", None,
+      append=_STREAMS_HELPER),
+    V("benign: streams evaluated in a local function", FILE, f"{CMD}.execute", _STREAMS, _STREAMS_LOCAL, None),
+    V("benign: stream helper result held in a temporary and subscripted", FILE, f"{CMD}.execute", _STREAMS,
+      "streams = _cwl_streams(self, context)\n    stdin = streams[0]\n    stdout = streams[1]\n    stderr = streams[2]", None, append=_STREAMS_HELPER),
+    V("benign: stream helper returns through a temporary", FILE, f"{CMD}.execute", _STREAMS, "stdin, stdout, stderr = _cwl_streams(self, context)", None,
+      append=_STREAMS_HELPER.replace("return stdin, stdout, stderr", "res = (stdin, stdout, stderr)\n    return res")),
+    V("benign: one private evaluator called once per stream", FILE, f"{CMD}.execute", _STREAMS, _STREAMS_EVAL, None, append=_EVAL_HELPER),
+    V("stream helper returns stdout in the stdin position", FILE, f"{CMD}.execute", _STREAMS, "stdin, stdout, stderr = _cwl_streams(self, context)", "R2",
+      append=_STREAMS_HELPER.replace("return stdin, stdout, stderr", "return stdout, stdin, stderr")),
+    V("stream helper result unpacked in the wrong order", FILE, f"{CMD}.execute", _STREAMS, "stdout, stdin, stderr = _cwl_streams(self, context)", "R2", append=_STREAMS_HELPER),
+    V("stream helper evaluates stdin from the stdout field", FILE, f"{CMD}.execute", _STREAMS, "stdin, stdout, stderr = _cwl_streams(self, context)", "R2",
+      append=_STREAMS_HELPER.replace("stdin = utils.eval_expression(expression=cmd.stdin", "stdin = utils.eval_expression(expression=cmd.stdout")),
+    V("stream evaluator ignores the expression it is given", FILE, f"{CMD}.execute", _STREAMS, _STREAMS_EVAL, "R2",
+      append=_EVAL_HELPER.replace("expression=expression", "expression=cmd.stdout")),
+    V("stream helper reads the fields of another object", FILE, f"{CMD}.execute", _STREAMS, "stdin, stdout, stderr = _cwl_streams(job, context)", "R2", append=_STREAMS_HELPER),
 ]
